@@ -58,5 +58,31 @@ let handle = function
       | Frame.Dead -> "dead"
       | Frame.Live (b, c) -> "live:" ^ hex_of_bytes b ^ ":" ^ dec_of_n c in
     Stdlib.String.concat " " (outs @ [fin])
+  | "sess" :: rctr :: tctr :: n :: rest ->
+    (* sess <a2c ctr> <c2a ctr> <n> <table entries> <op> ...   op = S:<payload> | R:<read> | C | P | U
+       -> per op: w/<frame>,<frame>.. | x (raise) | r (refused) | d/<L|D>/<pt>,<pt>.. | c | n *)
+    let (entries, ops) = take (int_of_string n) rest in
+    let tbl = Hashtbl.create 16 in
+    Stdlib.List.iter (fun e -> match Stdlib.String.split_on_char ':' e with
+        | [no; aad; ct; pt] -> Hashtbl.replace tbl (no ^ ":" ^ aad ^ ":" ^ ct) (bytes_of_hex pt)
+        | _ -> failwith "entry") entries;
+    let opn no aad ct = Hashtbl.find_opt tbl (hex_of_bytes no ^ ":" ^ hex_of_bytes aad ^ ":" ^ hex_of_bytes ct) in
+    let st = ref { Frame.s_rx = Frame.Live ([], n_of_dec rctr); Frame.s_tx = n_of_dec tctr } in
+    let op_of tok =
+      if tok = "C" then Frame.OCancel else if tok = "P" then Frame.OPause else if tok = "U" then Frame.OResume
+      else match Stdlib.String.split_on_char ':' tok with
+        | ["S"; h] -> Frame.OSend (bytes_of_hex h)
+        | ["R"; h] -> Frame.ORecv (bytes_of_hex h)
+        | _ -> failwith "op" in
+    let outs = Stdlib.List.map (fun tok ->
+        let (s', e) = Frame.ip_sess_step opn !st (op_of tok) in
+        st := s';
+        match e with
+        | Frame.EWrote fs -> "w/" ^ (if fs = [] then "." else Stdlib.String.concat "," (Stdlib.List.map frame_str fs))
+        | Frame.ERaise -> "x" | Frame.ERefused -> "r" | Frame.EClosed -> "c" | Frame.ENop -> "n"
+        | Frame.EDeliv o ->
+          "d/" ^ (match s'.Frame.s_rx with Frame.Dead -> "D" | Frame.Live _ -> "L") ^ "/" ^
+          (if o = [] then "." else Stdlib.String.concat "," (Stdlib.List.map hex_of_bytes o))) ops in
+    Stdlib.String.concat " " outs
   | _ -> "bad-request"
 let () = main_loop handle
